@@ -477,7 +477,7 @@ func propC15(c *Ctx) {
 	c.ruleNextDirectiveRecognised("C15-NEXT-DIRECTIVE")
 	// block order: a top-level block must not inherit from the block before it (a root-list directive gets no Parent),
 	// and a name declared by one block is never replaced by what a later block creates implicitly
-	c.ruleC11PlacementPaths()
+	c.ruleC11WalkUp()
 	c.ruleHasBeforeSet()
 	c.ruleRecursionVisitedOnly()
 }
